@@ -1241,6 +1241,7 @@ func (vc *VC) doRecv(st *State, f *Frame, x *ssa.UnOp) Value {
 	et := x.X.Type().Underlying().(*types.Chan).Elem()
 	v := vc.freshValue(st, et, "recv")
 	vc.chanInvAssume(st, f, x.X, ch, v)
+	st.lastRecv = ch
 	if x.CommaOk {
 		return Tuple{v, vc.fresh("recvok", sortBool)}
 	}
@@ -1273,6 +1274,7 @@ func (vc *VC) doSelect(st *State, f *Frame, x *ssa.Select) []*State {
 						s.assume(App(sortBool, "chclosed", cht))
 					}
 					vc.chanInvAssume(s, fr, sc.Chan, cht, v)
+					s.lastRecv = cht
 				} else {
 					v = vc.eng.st.Zero(vc.eng.st.SortOf(et))
 				}
